@@ -33,7 +33,7 @@ def main():
     diff = f"{src}/out/change{n}.diff"
     demo = f"{src}/out/demo_{n}.rs"
     meta = {"breaks_property": prop, "needs_to_manifest": needs, "ran": []}
-    sh("git checkout -- . && rm -rf tests", cwd=wt)
+    sh("git checkout -- . && git clean -fdq src && rm -rf tests", cwd=wt)
     os.makedirs(f"{wt}/tests", exist_ok=True)
     shutil.copy(demo, f"{wt}/tests/demo_{n}.rs")
     rc, out = sh(f"cargo test --offline --test demo_{n} 2>&1 | tail -15", cwd=wt)
@@ -58,7 +58,7 @@ def main():
         meta["ran"].append({"cmd": f"cargo test --offline --release --test demo_{n} (with change / clean tree)", "demo_fails_with_change": rel_fails, "demo_passes_clean": rel_clean_ok})
         demo_fails = rel_fails and rel_clean_ok
         meta["demo_needs_release"] = True
-    sh("git checkout -- . && rm -rf tests", cwd=wt)
+    sh("git checkout -- . && git clean -fdq src && rm -rf tests", cwd=wt)
     print(f"clean demo passes={clean_ok}  suite passes with change={suite_ok}  demo fails with change={demo_fails}")
     if not (clean_ok and suite_ok and demo_fails):
         print(out)
@@ -79,7 +79,7 @@ def main():
             results[c] = {"exit": rc, "seconds": round(time.time() - t, 1), "report": lines[:3]}
             print(c, "exit", rc, f"{time.time()-t:.1f}s", *lines[:3], sep="\n   ")
     finally:
-        sh("git checkout -- .", cwd=REPO)
+        sh("git checkout -- . && git clean -fdq src", cwd=REPO)
     meta["checks_run_from"] = CHECK_ROOT
     meta["repo_used"] = REPO
     meta["checks_quick"] = results
